@@ -432,10 +432,11 @@ impl Path {
 //|     ensures r is Ok,
 //|         // the label lies on the first segment, hence inside the path whatever its width
 //|         path_flush(self.points@, (self.width / 2) as int, r->Ok_0, self.points.len() - 1),
-//@   after /let p1 = &self\.points\[1\];/
+//@   atstart
 //|         proof {
-//|             let m = Point { x: ((p0.x + p1.x) / 2) as isize, y: ((p0.y + p1.y) / 2) as isize };
-//|             assert(seg_flush(self.points@[0], self.points@[1], (self.width / 2) as int, m));
+//|             let (a, b) = (self.points@[0], self.points@[1]);
+//|             let m = Point { x: ((a.x + b.x) / 2) as isize, y: ((a.y + b.y) / 2) as isize };
+//|             assert(seg_flush(a, b, (self.width / 2) as int, m));
 //|         }
 //@ end
 }
